@@ -263,8 +263,14 @@ func pathFor(e *simEnv, fm form, flow int, w window, destAt int, r *rand.Rand, n
 		m.dist = destAt
 		last = destAt - 1
 	}
-	budget := e.spec.Timeout - 2*e.spec.EffectivePoll()
+	n := w.last - w.first + 1
 	for t := w.first; t <= last; t++ {
+		// the engine listens until timeout + n*delay after its start (parallel) / timeout after each probe (serial):
+		// the latest instant a reply to probe t may arrive and still be inside its listening window
+		budget := e.spec.Timeout - 2*e.spec.EffectivePoll()
+		if !v.Serial {
+			budget += time.Duration(n-(t-w.first)) * e.spec.Delay
+		}
 		hs := &hopSpec{addr: routerAddr(v.V6, flow, t), build: fm.hop}
 		hs.delay = time.Duration(1+r.Intn(80)) * time.Millisecond
 		if noise {
@@ -339,27 +345,31 @@ func checkC02() fw.Check {
 										if fm.dest != nil && fm.hop == nil && dp == 0 {
 											continue // a destination form needs a reachable destination
 										}
-										noise := rep > 0 || dp == 0
-										sc := scenario{tag: fmt.Sprintf("%s dest@%d rep%d", id, dp, rep), v: v, win: w, b: b,
-											model: func(e *simEnv) *pathModel { return pathFor(e, fm, 1, w, dp, c.Rng, noise) }}
-										out := runScenario(c, sc)
-										if out == nil {
-											continue
-										}
-										n := 0
-										for i := range out.js {
-											if out.js[i].out.Kind == refmatch.Accept {
-												n++
+										for _, noise := range []bool{false, true} {
+											if rep > 0 && !noise {
+												continue
 											}
+											sc := scenario{tag: fmt.Sprintf("%s dest@%d rep%d noise%v", id, dp, rep, noise), v: v, win: w, b: b,
+												model: func(e *simEnv) *pathModel { return pathFor(e, fm, 1, w, dp, c.Rng, noise) }}
+											out := runScenario(c, sc)
+											if out == nil {
+												continue
+											}
+											n := 0
+											for i := range out.js {
+												if out.js[i].out.Kind == refmatch.Accept {
+													n++
+												}
+											}
+											c.Count("must_accept_frames_read", n)
+											if n > 0 && out.res.Err == nil {
+												c.Nontrivial(fmt.Sprintf("%s/%s/%d-%d", v.Name, fm.name, w.first, w.last))
+											}
+											if rep == 0 && dp != 0 {
+												c.Sample(map[string]any{"case": sc.tag, "result": fmtRun(out.res), "frames": fmtJudged(out.js)})
+											}
+											out.e.close()
 										}
-										c.Count("must_accept_frames_read", n)
-										if n > 0 && out.res.Err == nil {
-											c.Nontrivial(fmt.Sprintf("%s/%s/%d-%d", v.Name, fm.name, w.first, w.last))
-										}
-										if rep == 0 && dp != 0 {
-											c.Sample(map[string]any{"case": sc.tag, "result": fmtRun(out.res), "frames": fmtJudged(out.js)})
-										}
-										out.e.close()
 									}
 								}
 							}})
